@@ -77,6 +77,11 @@ func TestVerifC15(t *testing.T) {
 	}
 	side, _ := sql.Open("sqlite3", env.PrimaryDBPath())
 	sideC, _ := sql.Open("sqlite3", env.CacheDBPath())
+	phase := time.Now()
+	lap := func(name string) {
+		rep.Extra["seconds_"+name] = fmt.Sprintf("%.1f", time.Since(phase).Seconds())
+		phase = time.Now()
+	}
 	// ------------------------------------------------------------ (1) round trips
 	rootCk, _ := verifLogin(env, "root1", "pw-root1")
 	type enrolled struct {
@@ -150,10 +155,14 @@ func TestVerifC15(t *testing.T) {
 			"pending_totp": a.PendingTOTPSecret != nil, "registration_challenge": a.RegistrationChallenge != nil, "bootstrap_otp": len(a.BootstrapOTP.Sha512Hash) > 0})
 	}
 	// the real-flow credentials still work after the round trip through the cache (outage below)
+	lap("1_round_trips")
 	// ------------------------------------------------------------ (2) mirror histories
 	nHist, hLen := 40, 10
 	if verifThorough() {
 		nHist, hLen = 1500, 14
+		// the round-trip population (thousands of rows) would be copied by every synchronisation below: keep 40
+		side.Exec("delete from user_profile where username like 'gen%' and cast(substr(username, 4) as integer) >= 40")
+		env.SyncCache()
 	}
 	users := []string{"m0", "m1", "m2", "m3", "m4"}
 	for h := 0; h < nHist; h++ {
@@ -196,6 +205,7 @@ func TestVerifC15(t *testing.T) {
 			}
 		}
 	}
+	lap("2_mirror_histories")
 	// ------------------------------------------------------------ (3) fault at every driver call of a sync
 	shapes := [][2]int{{3, 2}}
 	if verifThorough() {
@@ -327,6 +337,7 @@ func TestVerifC15(t *testing.T) {
 		restore()
 		env.SyncCache()
 	}
+	lap("3_fault_enumeration")
 	// ------------------------------------------------------------ (4) outage
 	gate := newVerifOutage()
 	verifSQL.SetHook(pl, gate.Hook)
@@ -451,7 +462,9 @@ func TestVerifC15(t *testing.T) {
 	if c04DBDigest(side) != primaryBefore {
 		rep.Violate("C15/outage/primary-changed", "the primary store changed during the outage window", nil)
 	}
+	lap("4_outage")
 	c15SelfService(rep)
+	lap("5_self_service")
 	rep.Floor("roundtrips_ok", 30)
 	rep.Floor("mirror_syncs_equal", 30)
 	rep.Floor("fault_injections", 40)
